@@ -366,6 +366,9 @@ impl HCtx {
             "unknown2" => ("unknown", format!("/v1/client/add-version/{segs}/extra")),
             "unknown3" => ("unknown", "/v2/client/snapshot".to_string()),
             "unknown4" => ("unknown", "/v1/client/snapshot/".to_string()),
+            // request targets that are not a path at all: the asterisk form (`OPTIONS *`), a doubled leading slash
+            "star" => ("unknown", "*".to_string()),
+            "dslash" => ("unknown", "//v1/client/snapshot".to_string()),
             other => panic!("bad route {other}"),
         };
         // ---- client id header
